@@ -273,4 +273,226 @@ theorem C04_transform2_refines (m : Mem) (s1 s2 d : View) (f : Nat → Nat → N
   unfold View.at2d
   rw [h1, h2]
 
+/-! ### overlapping source and destination: block moves (memmove) against the forward loop -/
+
+private theorem snapshot_cons (m : Mem) (p : Int × Int) (ps : List (Int × Int)) (h : ∀ q ∈ ps, p.2 ≠ q.1) :
+    snapshotPairs m (p :: ps) = snapshotPairs (m.set p.2 (m.get p.1)) ps := by
+  unfold snapshotPairs
+  simp only [List.map_cons, List.foldl_cons]
+  congr 1
+  apply List.map_congr_left
+  intro q hq
+  rw [Mem.get_set]
+  have := h q hq
+  simp [Ne.symm this]
+
+/-- a block move equals the forward element loop whenever no destination cell written earlier is read later -/
+private theorem snapshot_eq_apply (ps : List (Int × Int)) : ∀ (m : Mem), ps.Pairwise (fun p q => p.2 ≠ q.1) →
+    snapshotPairs m ps = applyPairs m ps := by
+  induction ps with
+  | nil => intro m _; rfl
+  | cons p ps ih =>
+    intro m h
+    rw [List.pairwise_cons] at h
+    rw [snapshot_cons m p ps h.1, ih _ h.2]
+    rfl
+
+private theorem applyPairs_append (m : Mem) (a b : List (Int × Int)) : applyPairs m (a ++ b) = applyPairs (applyPairs m a) b := by
+  unfold applyPairs; rw [List.foldl_append]
+
+private theorem rows_snapshot_eq_apply (rows : List (List (Int × Int))) : ∀ (m : Mem), rows.flatten.Pairwise (fun p q => p.2 ≠ q.1) →
+    rows.foldl snapshotPairs m = applyPairs m rows.flatten := by
+  induction rows with
+  | nil => intro m _; rfl
+  | cons r rs ih =>
+    intro m h
+    rw [List.flatten_cons, List.pairwise_append] at h
+    rw [List.foldl_cons, snapshot_eq_apply r m h.1, ih _ h.2.1, List.flatten_cons, applyPairs_append]
+
+private theorem copyRows_flatten (s d : View) : (copyRows s d).flatten = rowPairs s d := by
+  unfold copyRows rowPairs
+  rw [List.flatMap_def]
+
+/-- the hazard of a forward copy: a destination pixel written at step i is a source pixel read at a later step j -/
+def NoHazard (s d : View) : Prop := ∀ i j, i < j → j < d.w * d.h → d.at2d i ≠ s.at2d j
+
+private theorem pairwise_of_noHazard (s d : View) (h : NoHazard s d) : (specCopyPairs s d).Pairwise (fun p q => p.2 ≠ q.1) := by
+  unfold specCopyPairs
+  rw [List.pairwise_map]
+  apply List.Pairwise.imp_of_mem (R := fun i j => i < j)
+  · intro i j _ hj hij
+    exact h i j hij (List.mem_range.mp hj)
+  · exact List.pairwise_lt_range
+
+/-- copy_pixels with source and destination in one buffer: in every branch (block moves of the whole view, block moves per row, forward
+    element loops) the result is the per-pixel loop's result as long as no destination pixel written earlier is a source pixel read later.
+    In particular: disjoint views, and every overlap in which the destination trails the source. -/
+theorem C04_copy_overlap_no_hazard (block1d blockRow : Bool) (m : Mem) (s d : View) (hw : s.w = d.w) (hh : s.h = d.h) (h : NoHazard s d) :
+    implCopyOv block1d blockRow m s d = specCopy m s d := by
+  have hp := pairwise_of_noHazard s d h
+  unfold implCopyOv
+  split
+  · cases block1d with
+    | false => simp only [Bool.false_eq_true, if_false]; exact C04_copy_refines m s d hw hh
+    | true => simp only [if_true]; rw [C04_copy_order s d hw hh, snapshot_eq_apply _ m hp]; rfl
+  · cases blockRow with
+    | false => simp only [Bool.false_eq_true, if_false]; exact C04_copy_refines m s d hw hh
+    | true =>
+      simp only [if_true]
+      rw [rows_snapshot_eq_apply _ m (by rw [copyRows_flatten, C04_transform_order s d hw]; exact hp), copyRows_flatten,
+        C04_transform_order s d hw]; rfl
+
+/-- disjoint source and destination cells: no hazard -/
+theorem C04_disjoint_no_hazard (s d : View) (hw : s.w = d.w) (hh : s.h = d.h) (hdis : ∀ a, a ∈ d.cells → a ∉ s.cells) : NoHazard s d := by
+  intro i j hij hj e
+  have hi : i < d.w * d.h := by omega
+  apply hdis (d.at2d i)
+  · unfold View.cells specAddrs; exact List.mem_map.mpr ⟨i, List.mem_range.mpr hi, rfl⟩
+  · rw [e]; unfold View.cells specAddrs; rw [hw, hh]; exact List.mem_map.mpr ⟨j, List.mem_range.mpr hj, rfl⟩
+
+/-- 1-D traversable views of one pixel step `xs > 0` inside one buffer, the destination starting at or before the source
+    (the "shift towards the beginning" overlap): no hazard, so copy_pixels is the loop whichever branch runs -/
+theorem C04_backward_overlap_no_hazard (s d : View) (h1s : s.is1d = true) (h1d : d.is1d = true) (hx : s.xs = d.xs)
+    (hpos : 0 < d.xs) (hb : d.base ≤ s.base) : NoHazard s d := by
+  intro i j hij _ e
+  have es : ∀ (v : View), v.is1d = true → ∀ k, v.at2d k = v.at1d k := by
+    intro v hv k
+    unfold View.at1d View.at2d View.addr View.is1d at *
+    have hy : v.ys = (v.w : Int) * v.xs := by simpa using hv
+    rw [hy]
+    have e : (k : Int) = (v.w : Int) * ((k / v.w : Nat) : Int) + ((k % v.w : Nat) : Int) := by
+      have := Nat.div_add_mod k v.w
+      exact_mod_cast this.symm
+    rw [Int.add_assoc]
+    congr 1
+    conv => rhs; rw [e]
+    rw [Int.add_mul, Int.mul_comm (v.w : Int) ((k / v.w : Nat) : Int), Int.mul_assoc]
+  rw [es d h1d, es s h1s] at e
+  unfold View.at1d at e
+  rw [hx] at e
+  have hlt : (i : Int) * d.xs < (j : Int) * d.xs := Int.mul_lt_mul_of_pos_right (by exact_mod_cast hij) hpos
+  omega
+
+example : NoHazard ⟨1, 1, 3, 3, 1⟩ ⟨0, 1, 3, 3, 1⟩ ∧ (⟨1, 1, 3, 3, 1⟩ : View).is1d = true :=
+  ⟨C04_backward_overlap_no_hazard _ _ (by decide) (by decide) rfl (by decide) (by decide), by decide⟩
+
+private theorem foldl_set_nodup (l : List (Int × Nat)) : ∀ (m : Mem), (l.map (·.1)).Nodup → ∀ p ∈ l,
+    (l.foldl (fun acc p => acc.set p.1 p.2) m).get p.1 = p.2 := by
+  induction l with
+  | nil => intro m _ p hp; cases hp
+  | cons q l ih =>
+    intro m hn p hp
+    simp only [List.map_cons, List.nodup_cons] at hn
+    simp only [List.foldl_cons]
+    cases hp with
+    | head =>
+      rw [foldl_set_frame l (fun (p : Int × Nat) => p.1) (fun _ p => p.2) _ q.1 (fun r hr e => hn.1 (e ▸ List.mem_map.mpr ⟨r, hr, rfl⟩))]
+      rw [Mem.get_set]; simp
+    | tail _ h => exact ih _ hn.2 p h
+
+/-- what the block-move branch yields for ANY overlap (both views 1-D traversable, block-move iterators, destination pixels distinct
+    cells): every destination pixel holds the ORIGINAL value of its source pixel (memmove semantics), also where the forward loop
+    would already have overwritten that source pixel -/
+theorem C04_copy_block_snapshot (m : Mem) (s d : View) (hw : s.w = d.w) (hh : s.h = d.h) (h1 : (s.is1d && d.is1d) = true)
+    (hnd : d.cells.Nodup) (blockRow : Bool) (k : Nat) (hk : k < d.w * d.h) :
+    (implCopyOv true blockRow m s d).get (d.at2d k) = m.get (s.at2d k) := by
+  unfold implCopyOv
+  simp only [if_true, h1]
+  rw [C04_copy_order s d hw hh]
+  unfold snapshotPairs
+  have := foldl_set_nodup ((specCopyPairs s d).map (fun p => (p.2, m.get p.1))) m
+    (by unfold specCopyPairs; simp only [List.map_map]; exact hnd) (d.at2d k, m.get (s.at2d k))
+    (by unfold specCopyPairs; simp only [List.map_map]; exact List.mem_map.mpr ⟨k, List.mem_range.mpr hk, rfl⟩)
+  exact this
+
+/-- block moves keep the frame: cells that are not destination pixels keep their value, for any overlap -/
+theorem C04_copy_overlap_frame (block1d blockRow : Bool) (m : Mem) (s d : View) (hw : s.w = d.w) (hh : s.h = d.h) (a : Int) (ha : a ∉ d.cells) :
+    (implCopyOv block1d blockRow m s d).get a = m.get a := by
+  have hmem : ∀ p ∈ specCopyPairs s d, p.2 ≠ a := by
+    intro p hp e
+    apply ha
+    unfold specCopyPairs at hp
+    obtain ⟨i, hi, rfl⟩ := List.mem_map.mp hp
+    unfold View.cells specAddrs
+    exact List.mem_map.mpr ⟨i, hi, e⟩
+  have hsnap : ∀ (ps : List (Int × Int)) (m : Mem), (∀ p ∈ ps, p.2 ≠ a) → (snapshotPairs m ps).get a = m.get a := by
+    intro ps m hps
+    unfold snapshotPairs
+    apply foldl_set_frame _ (fun (p : Int × Nat) => p.1) (fun _ p => p.2)
+    intro p hp
+    obtain ⟨q, hq, rfl⟩ := List.mem_map.mp hp
+    exact hps q hq
+  unfold implCopyOv
+  split
+  · cases block1d with
+    | false => simp only [Bool.false_eq_true, if_false]; exact C04_copy_frame m s d hw hh a ha
+    | true => simp only [if_true]; rw [C04_copy_order s d hw hh]; exact hsnap _ m hmem
+  · cases blockRow with
+    | false => simp only [Bool.false_eq_true, if_false]; exact C04_copy_frame m s d hw hh a ha
+    | true =>
+      simp only [if_true]
+      have hrows : ∀ r ∈ copyRows s d, ∀ p ∈ r, p.2 ≠ a := by
+        intro r hr p hp
+        apply hmem
+        rw [← C04_transform_order s d hw, ← copyRows_flatten]
+        exact List.mem_flatten.mpr ⟨r, hr, hp⟩
+      generalize copyRows s d = rows at hrows
+      induction rows generalizing m with
+      | nil => rfl
+      | cons r rs ih =>
+        rw [List.foldl_cons, ih _ (fun r' hr' => hrows r' (List.mem_cons_of_mem _ hr')), hsnap r m (hrows r List.mem_cons_self)]
+
+/-- the hazardous overlap (destination one pixel AFTER the source in one contiguous 1-D traversable run): the block-move branch (interleaved /
+    planar / packed raw-pointer views) yields the shifted original pixels, the forward loop (bit-aligned iterators) smears the first pixel;
+    the two branches differ, and only the block move is what a copy of the ORIGINAL source would give -/
+theorem C04_copy_overlap_forward_witness :
+    let m : Mem := ⟨[(0, 10), (1, 11), (2, 12), (3, 13)]⟩
+    let s : View := ⟨0, 1, 3, 3, 1⟩
+    let d : View := ⟨1, 1, 3, 3, 1⟩
+    ¬ NoHazard s d ∧
+    ((implCopyOv true false m s d).get 1, (implCopyOv true false m s d).get 2, (implCopyOv true false m s d).get 3) = (10, 11, 12) ∧
+    ((implCopyOv false false m s d).get 1, (implCopyOv false false m s d).get 2, (implCopyOv false false m s d).get 3) = (10, 10, 10) ∧
+    ((specCopy m s d).get 1, (specCopy m s d).get 2, (specCopy m s d).get 3) = (10, 10, 10) := by
+  refine ⟨fun h => h 0 1 (by decide) (by decide) (by decide), by decide, by decide, by decide⟩
+
+/-! ### uninitialized_fill_pixels, uninitialized_copy_pixels, default_construct_pixels, destruct_pixels -/
+
+theorem C04_uninit_fill_refines (m : Mem) (d : View) (v : Nat) : implUninitFill m d v = specFill m d v := by
+  have := C04_fill_refines m d v
+  unfold implFill implFillAddrs at this
+  unfold implUninitFill
+  exact this
+
+/-- uninitialized_copy_pixels' two-way split (both 1-D traversable, or row by row) is the row-major loop -/
+theorem C04_uninit_copy_order (s d : View) (hw : s.w = d.w) (hh : s.h = d.h) : implUninitCopyPairs s d = specCopyPairs s d := by
+  unfold implUninitCopyPairs
+  split
+  next h1 =>
+    have h1' : s.is1d = true ∧ d.is1d = true := by simpa using h1
+    rw [run1d_eq s h1'.1, run1d_eq d h1'.2]
+    unfold specAddrs specCopyPairs
+    rw [hw, hh, List.zip_map']
+  next => exact C04_transform_order s d hw
+
+-- OPEN (not proven; FALSE on the current tree, see the witness below):
+--   theorem C04_uninit_copy_refines (proxyNoStore : Bool) (m : Mem) (s d : View) (hw : s.w = d.w) (hh : s.h = d.h) :
+--     implUninitCopy proxyNoStore m s d = specCopy m s d
+/-- uninitialized_copy_pixels = the loop, for every pair of views except bit-aligned views with a step x-iterator on either side -/
+theorem C04_uninit_copy_refines_partial (m : Mem) (s d : View) (hw : s.w = d.w) (hh : s.h = d.h) : implUninitCopy false m s d = specCopy m s d := by
+  unfold implUninitCopy specCopy; simp only [Bool.false_eq_true, if_false]; rw [C04_uninit_copy_order s d hw hh]
+
+/-- finding C04-uninitialized-copy-bit-aligned-step-views: a 1 x 1 copy into a subsampled bit-aligned view leaves the destination pixel as it was -/
+theorem C04_uninit_copy_proxy_witness :
+    (implUninitCopy true ⟨[(0, 1), (100, 0)]⟩ ⟨0, 1, 1, 1, 1⟩ ⟨100, 2, 2, 1, 1⟩).get 100 = 0 ∧
+    (specCopy ⟨[(0, 1), (100, 0)]⟩ ⟨0, 1, 1, 1, 1⟩ ⟨100, 2, 2, 1, 1⟩).get 100 = 1 := by decide
+
+/-- default_construct_pixels / destruct_pixels: no effect on trivially constructible / destructible pixels; otherwise every pixel of the
+    view is value-initialised and nothing else changes -/
+theorem C04_default_construct (trivial : Bool) (m : Mem) (d : View) (v0 : Nat) :
+    implDefaultConstruct trivial m d v0 = if trivial then m else specFill m d v0 := by
+  unfold implDefaultConstruct
+  cases trivial with
+  | true => rfl
+  | false => simp only [Bool.false_eq_true, if_false]; exact C04_uninit_fill_refines m d v0
+
 end GilVerif.Props.C04
